@@ -72,6 +72,7 @@ class FnDep:
         self._alias = {}
         self._alias_extra = {}   # local -> operands (indexes / keys) the aliased view additionally depends on
         self.closure_aggs = {}  # local -> agg rvalue (closure construction)
+        self._term_block = {}
         self._collect_defs()
         self._solve()
 
@@ -92,6 +93,7 @@ class FnDep:
             t = blk['term']
             if t['k'] == 'call':
                 self.defs.setdefault(t['dst']['l'], []).append(('call', bi, t))
+                self._term_block[id(t)] = bi
 
     def is_param(self, l):
         return 1 <= l <= self.body.arg_count
@@ -319,6 +321,17 @@ class FnDep:
         return per, muts
 
     def _xfer_call(self, t):
+        ch = self._xfer_call0(t)
+        if self.eng.sites:
+            # Engine(prog, sites=..): the result of a designated decoding call also carries an atom naming the call site, so that values decoded
+            # by different calls from the same input can be told apart (which of them a later test looks at)
+            name = t.get('resolved') or t.get('callee') or ''
+            cal = t.get('callee') or ''
+            if any(name.endswith(x) or cal.endswith(x) for x in self.eng.sites):
+                ch |= self.write_place(t['dst'], {('site', '%s#b%s:%s' % (self.body.path, self._term_block.get(id(t)), cal.split('::')[-1]))})
+        return ch
+
+    def _xfer_call0(self, t):
         ch = False
         callee = t.get('callee')
         resolved = t.get('resolved') if t.get('resolved_kind') == 'item' else None
@@ -625,8 +638,9 @@ class Engine:
             return callee
         return None
 
-    def __init__(self, prog, modular=False):
+    def __init__(self, prog, modular=False, sites=()):
         self.prog = prog
+        self.sites = tuple(sites)   # callee name endings whose call sites become atoms of their results (see FnDep._xfer_call)
         self.modular = modular      # label every dependence on a parameter with how it treats residue classes (see `label_of`)
         self._fd = {}
         self._summ = {}
